@@ -13,7 +13,9 @@ threads).
 
 Part B (`TR.Adaptive`): the service. Quantification: every such configuration, every list of
 operations (= every arrival, poll, cancellation, time-advance order; inner calls that succeed,
-fail, panic or never complete; readiness checks made ahead of the call; probes; callers that
+fail, panic or never complete; an inner service whose `call()` itself panics before it has returned
+a future — `arrive … callpanic=1`, on a fresh clone, a checked clone or a persistent handle —;
+readiness checks made ahead of the call; probes; callers that
 keep a finished call future alive — `arrive … keep=1` — and let go of it at any later point;
 persistent handles polled for readiness any number of times over an inner service that answers
 ready / pending / error per poll — `manual ready h= rdy=`, `arrive … h=` —; rounds of threads).
@@ -144,7 +146,8 @@ theorem in_flight_matches_log (cfg : Cfg) (hmm : cfg.min ≤ cfg.max) (hf : cfg.
     calls (run cfg ops).log = ended (run cfg ops).log + (run cfg ops).inFlight :=
   (inv_reachable ⟨hmm, hf⟩ ops).trace
 
-/-- **After any history the limiter reports zero in flight once nothing is running.** -/
+/-- **After any history the limiter reports zero in flight once nothing is running** — histories with calls whose
+inner `Service::call` panicked synchronously included (`Op.arriveX`; see `call_panic_frees_slot`). -/
 theorem quiescent_zero (cfg : Cfg) (hmm : cfg.min ≤ cfg.max) (hf : cfg.fnum ≤ cfg.fden) (ops : List Op)
     (hq : (run cfg ops).running = []) : (run cfg ops).inFlight = 0 := by
   have := in_flight_exact cfg hmm hf ops
@@ -334,6 +337,75 @@ example :
     (run cfg (b ++ [.arrive 2 ⟨0, .err 1⟩ true])).running = [2] ∧
     (run cfg d).held = [1, 2] ∧ (run cfg d).inFlight = 0 ∧ (run cfg d).running = [] ∧
     (run cfg (d ++ [.letGo 1, .letGo 2])).held = [] ∧ (run cfg (d ++ [.letGo 1, .letGo 2])).inFlight = 0 := by
+  decide
+
+/-! ### an inner service whose `call()` itself panics (no future is ever returned) -/
+
+/-- **A call stops counting as in flight when it … panics — also when the panic happens inside the wrapped service's
+`Service::call`, before any future exists.** `call()` has counted the call and built the guard (`enterCall`) when
+`inner.call(req)` unwinds; the unwind drops the guard (`unwindCall`). In every reachable state, for every such arrival
+(fresh clone, checked clone, persistent handle; admitted or refused): after the step the counter and the set of
+running calls are what they were (the caller never becomes *running*), the counter is exactly the number of running
+calls — so zero with nothing running —, the readiness comparison answers as before (such panics never use up
+capacity: after any number of them a caller is still admitted below the limit), the algorithm got no feedback, the
+`current_limit` mirror and the inner service's serial numbers are untouched (the inner service was not reached). -/
+theorem call_panic_frees_slot (cfg : Cfg) (hmm : cfg.min ≤ cfg.max) (hf : cfg.fnum ≤ cfg.fden) (ops : List Op)
+    (c : Nat) (sc : Step) (hd : Nat) (a : Ans) :
+    (stepS cfg (run cfg ops) (.arriveX c sc hd a)).inFlight = (run cfg ops).inFlight ∧
+    (stepS cfg (run cfg ops) (.arriveX c sc hd a)).running = (run cfg ops).running ∧
+    (stepS cfg (run cfg ops) (.arriveX c sc hd a)).inFlight = (stepS cfg (run cfg ops) (.arriveX c sc hd a)).running.length ∧
+    ((run cfg ops).running = [] → (stepS cfg (run cfg ops) (.arriveX c sc hd a)).inFlight = 0) ∧
+    atCapacity (stepS cfg (run cfg ops) (.arriveX c sc hd a)) = atCapacity (run cfg ops) ∧
+    (stepS cfg (run cfg ops) (.arriveX c sc hd a)).alg = (run cfg ops).alg ∧
+    (stepS cfg (run cfg ops) (.arriveX c sc hd a)).cur = (run cfg ops).cur ∧
+    (stepS cfg (run cfg ops) (.arriveX c sc hd a)).serial = (run cfg ops).serial := by
+  have hi := inv_reachable (cfg := cfg) ⟨hmm, hf⟩ ops
+  have hi' := stepS_inv ⟨hmm, hf⟩ hi (.arriveX c sc hd a)
+  have hfr : (stepS cfg (run cfg ops) (.arriveX c sc hd a)).inFlight = (run cfg ops).inFlight ∧
+      (stepS cfg (run cfg ops) (.arriveX c sc hd a)).running = (run cfg ops).running ∧
+      (stepS cfg (run cfg ops) (.arriveX c sc hd a)).alg = (run cfg ops).alg ∧
+      (stepS cfg (run cfg ops) (.arriveX c sc hd a)).cur = (run cfg ops).cur ∧
+      (stepS cfg (run cfg ops) (.arriveX c sc hd a)).serial = (run cfg ops).serial := by
+    simp only [stepS, arriveFreshX, arriveHandleX, panicCall_eq]
+    repeat' split
+    all_goals simp [refuse, refuseWith, emit, recordCheck, pollHandle]
+  obtain ⟨h1, h2, h3, h4, h5⟩ := hfr
+  refine ⟨h1, h2, hi'.exact, ?_, ?_, h3, h4, h5⟩
+  · intro hq
+    rw [hi'.exact, h2, hq]; rfl
+  · simp only [atCapacity, h1, h3]
+
+/-- The two halves of such a call, spelled out: the call IS counted while `inner.call(req)` runs (`enterCall`: the
+guard exists), and the unwind gives exactly that slot back; what remains is the caller's `panic`. An admitted caller
+(fresh clone, below the limit) sees exactly that. -/
+theorem call_panic_counted_then_released (cfg : Cfg) (s : State) (c : Nat) (sc : Step) (hk : known s c = false)
+    (hc : c ∉ s.checked) (hn : atCapacity s = false) :
+    (enterCall (recordCheck s c)).inFlight = s.inFlight + 1 ∧
+    (unwindCall (enterCall (recordCheck s c))).inFlight = s.inFlight ∧
+    stepS cfg s (.arriveX c sc 0 .r) = panicCall (recordCheck s c) c sc ∧
+    (stepS cfg s (.arriveX c sc 0 .r)).log = s.log ++ [.result c .panic] := by
+  have hn' : atCapacity s = false := hn
+  refine ⟨rfl, by simp [unwindCall, enterCall, recordCheck], ?_, ?_⟩
+  · simp [stepS, hk, hc, arriveFreshX, hn']
+  · simp [stepS, hk, hc, arriveFreshX, hn', panicCall_eq, refuseWith, emit, recordCheck]
+
+/-- Non-vacuity (the situation of the seeded change): fixed limit 2. One ordinary call completes; then two callers whose
+inner `call()` panics — one on a fresh clone, one through a persistent handle that was polled ready before —, and a
+third one on a clone checked ahead of time: after each the limiter reports 0 in flight, a readiness probe says ready,
+and two further long calls are admitted (the third is refused: the limit is 2, not less). A panic inside the returned
+future (caller 9) is the other kind and frees its slot at the poll. -/
+example :
+    let cfg : Cfg := { kind := .aimd, min := 2, max := 2, initial := 2 }
+    let a := [Op.arrive 1 ⟨0, .ok⟩ false, .poll 1, .arriveX 2 ⟨0, .ok⟩ 0 .r]
+    let b := a ++ [.ready 1 .r, .arriveX 3 ⟨0, .ok⟩ 1 .r, .check 4, .arriveX 4 ⟨0, .ok⟩ 0 .r]
+    let d := b ++ [.probeReady, .arrive 5 ⟨100, .ok⟩ false, .arrive 6 ⟨100, .ok⟩ false, .arrive 7 ⟨100, .ok⟩ false]
+    (run cfg a).inFlight = 0 ∧ (run cfg a).running = [] ∧ atCapacity (run cfg a) = false ∧
+    (run cfg b).inFlight = 0 ∧ (run cfg b).running = [] ∧ (run cfg b).hready = [] ∧ (run cfg b).checked = [] ∧
+    (run cfg b).serial = 1 ∧ (run cfg b).alg.limit = 2 ∧
+    (run cfg d).running = [5, 6] ∧ (run cfg d).inFlight = 2 ∧
+    (run cfg d).checks.map (fun k => (k.who, k.running, k.refused)) =
+      [(1, 0, false), (2, 0, false), (4, 0, false), (0, 0, false), (5, 0, false), (6, 1, false), (7, 2, true)] ∧
+    (run cfg [.arrive 9 ⟨0, .panic⟩ false, .poll 9]).inFlight = 0 := by
   decide
 
 /-! ### an inner service that is not ready at once: the capacity check is made at every `poll_ready` -/
